@@ -380,6 +380,68 @@ pub fn check_scale(n: usize, auth_at: usize, ttl_of: &dyn Fn(usize) -> u32) -> V
     }
 }
 
+/// The network path: a response datagram (plain or compressed bytes) is parsed and ingested by
+/// the real add_response_to_resources (sync) / its async twin, then the store is read at
+/// 0, 1, 2, ... seconds. `seq` is a list of receptions (ttl, cache_flush) of the same A record.
+pub fn check_ingest(seq: &[(u32, bool)], gap: u64, asynchronous: bool) -> Vec<Finding> {
+    use simple_mdns::verif::{add_response_to_resources, add_response_to_resources_async};
+    let case = json!({"kind": "ingest", "seq": seq, "gap": gap, "async": asynchronous});
+    let r = guarded(|| -> Result<Vec<(String, String)>, String> {
+        let mut bad = Vec::new();
+        let service = lib_name(&RefName::txt("svc.local")).into_owned();
+        let own = lib_name(&RefName::txt("me.svc.local")).into_owned();
+        let owner_ref = RefName::txt("peer.svc.local");
+        let owner = lib_name(&owner_ref).into_owned();
+        let mut store = ResourceRecordManager::new();
+        store.add_authoritative_resource(simple_dns::ResourceRecord::new(service.clone(), simple_dns::CLASS::IN, 120, simple_dns::rdata::RData::PTR(simple_dns::rdata::PTR(own.clone()))));
+        let rt = if asynchronous { Some(tokio::runtime::Builder::new_current_thread().build().map_err(|e| format!("{}", e))?) } else { None };
+        let mut left: Option<u32> = None; // seconds the record still has to live
+        let read = |store: &ResourceRecordManager<'static>, left: Option<u32>, when: String, bad: &mut Vec<(String, String)>| {
+            let got = store.get_domain_resources(&owner, DomainResourceFilter::cached()).flatten().any(|r| matches!(&r.rdata, simple_dns::rdata::RData::A(a) if a.address == 0x0a0b0c0d));
+            let alive = matches!(left, Some(k) if k > 0);
+            if got != alive {
+                bad.push((if alive { "ingest-record-missing".to_string() } else { "ingest-expired-record-returned".to_string() }, format!("{}: cached query returns the record: {}, expected {} ({:?} s left)", when, got, alive, left)));
+            }
+            let auth = store.get_domain_resources(&owner, DomainResourceFilter::authoritative(false)).flatten().count();
+            if auth != 0 {
+                bad.push(("ingest-network-record-authoritative".to_string(), format!("{}: a record learned from the network is returned by the authoritative query", when)));
+            }
+        };
+        for (step, (ttl, flush)) in seq.iter().enumerate() {
+            let mut p = RefPacket { id: 0, flags: F_QR | F_AA, ..Default::default() };
+            p.answers.push(RefRR { name: owner_ref.clone(), class: 1, cache_flush: *flush, ttl: *ttl, rdata: typed(1, vec![Val::U32(0x0a0b0c0d)]) });
+            let bytes = if step % 2 == 0 { p.encode(0) } else { p.encode_compressed(0, true) };
+            let packet = simple_dns::Packet::parse(&bytes).map_err(|e| format!("{:?}", e))?;
+            match &rt {
+                None => add_response_to_resources(packet, &service, &own, &mut store, &mut None),
+                Some(rt) => rt.block_on(add_response_to_resources_async(packet, &service, &own, &mut store, &mut None)),
+            }
+            left = Some(if *flush { 1 } else if *ttl >= 59 { 1_000_000 } else { *ttl });
+            read(&store, left, format!("right after reception {} (ttl {}, cache-flush {})", step, ttl, flush), &mut bad);
+            for tick in 1..=gap {
+                if !store.verif_advance(1) {
+                    return Err("clock".into());
+                }
+                if let Some(k) = left.as_mut() {
+                    if *k > 0 && *k < 1_000_000 {
+                        *k -= 1;
+                    }
+                }
+                read(&store, left, format!("{} s after reception {} (ttl {}, cache-flush {})", tick, step, ttl, flush), &mut bad);
+            }
+        }
+        Ok(bad)
+    });
+    match r {
+        Err(pn) => vec![finding(format!("C20|ingest|{}", pn.sig()), format!("{:?}", pn), case)],
+        Ok(Err(e)) => vec![finding("C20|ingest|path-error", e, case)],
+        Ok(Ok(bad)) => {
+            let mut seen = std::collections::BTreeSet::new();
+            bad.into_iter().filter(|(t, _)| seen.insert(t.clone())).map(|(t, d)| finding(format!("C20|{}", t), d, case.clone())).collect()
+        }
+    }
+}
+
 pub fn real_traces() -> Vec<Vec<Op>> {
     vec![
         vec![Op::AddCached(1, 1, false), Op::Tick],
@@ -479,6 +541,38 @@ pub fn run(ctx: &Ctx) {
         });
         ctx.space("long histories: (a b)^k for every ordered pair of the 27 operations, k in {3,6,11,20}, with and without interleaved ticks, observed at the end and one tick later", total.load(std::sync::atomic::Ordering::Relaxed), "complete");
     }
+    // the network path: datagram -> parse -> add_response_to_resources (sync and async) -> store
+    {
+        let recs: [(u32, bool); 8] = [(0, false), (1, false), (2, false), (5, false), (120, false), (0, true), (2, true), (120, true)];
+        let mut seqs: Vec<Vec<(u32, bool)>> = Vec::new();
+        for a in recs {
+            seqs.push(vec![a]);
+            for b2 in recs {
+                seqs.push(vec![a, b2]);
+                if ctx.tier == crate::engine::Tier::Thorough {
+                    for c in recs {
+                        seqs.push(vec![a, b2, c]);
+                    }
+                }
+            }
+        }
+        let cases: Vec<(Vec<(u32, bool)>, u64, bool)> = seqs.iter().flat_map(|s| [0u64, 1, 3, 6].into_iter().flat_map(move |g| [false, true].into_iter().map(move |asy| (s.clone(), g, asy)))).collect();
+        let chunks: Vec<&[(Vec<(u32, bool)>, u64, bool)]> = cases.chunks(16).collect();
+        par_shards(ctx, &chunks, |cs, t: &mut Tally| {
+            for (s, g, asy) in cs.iter() {
+                t.evals += 1;
+                t.nontrivial += 1;
+                t.transitions += (s.len() as u64) * (1 + g);
+                let f = check_ingest(s, *g, *asy);
+                if !f.is_empty() {
+                    t.outcome("ingest-bad");
+                    ctx.violations(f);
+                }
+            }
+        });
+        ctx.space("network path: every sequence of <= 2 (3 thorough) receptions over 8 (TTL, cache-flush) shapes of one record, as plain and compressed datagrams parsed and ingested by the real sync and async add_response_to_resources, read back immediately and every second for 0/1/3/6 s after each reception", cases.len() as u64, "complete");
+        ctx.sample(json!({"kind": "ingest", "seq": [[120, true]], "gap": 3, "async": false}));
+    }
     // scale: many records under one name
     {
         let sizes: Vec<usize> = vec![1, 2, 4, 8, 9, 15, 16, 17, 31, 32, 33, 34, 50, 63, 64, 65, 100, 128, 129, 200, 256, 257, 500];
@@ -566,6 +660,10 @@ pub fn run(ctx: &Ctx) {
 pub fn replay(case: &Value) -> Vec<Finding> {
     let hist: Vec<Op> = serde_json::from_value(case["history"].clone()).unwrap_or_default();
     let w = world();
+    if case["kind"].as_str() == Some("ingest") {
+        let seq: Vec<(u32, bool)> = serde_json::from_value(case["seq"].clone()).unwrap_or_default();
+        return check_ingest(&seq, case["gap"].as_u64().unwrap_or(0), case["async"].as_bool().unwrap_or(false));
+    }
     if case["kind"].as_str() == Some("scale") {
         let n = case["n"].as_u64().unwrap_or(1) as usize;
         let a = case["auth_at"].as_u64().unwrap_or(0) as usize;
